@@ -56,6 +56,9 @@ CHECKS = {
     "C15": ("exploration", "runtime monitoring of every diagnostic produced under target versions 1.13-1.23 (embedded rules, hand-written checkers, dynamic ruleguard on the same rule source) against a first-appearance table built from GOROOT/api; differential unset vs newest, 1.N vs go1.N, front-end -go vs SetGoVersion",
             "Recommended APIs (pkg.Name, .Method, 0o literals that do not occur in the flagged source window) are looked up in GOROOT/api/go1.*.txt; a recommendation newer than the configured version is a violation; unset must equal 1.99, 1.N must equal go1.N, 1.9 must not get what first appears at 1.13, and CLI/analyzer -go must equal the in-process run.",
             "method recommendations use the earliest version of any std method with that name (conservative)", "5/C15"),
+    "C11": ("exploration", "runtime monitoring of the real regexpSimplify checker on synthesised files of generated patterns; oracle = Go's regexp (submatch indices on enumerated subjects, group counts and names)",
+            "About 2e4 (quick) / 2.5e5 (thorough) distinct patterns from a seeded grammar plus the repository's own example patterns are analysed in files of 500 regexp.MustCompile calls; every proposed rewrite is compiled next to its original and compared on all subject strings up to length 3/4 over the pattern's own runes plus seeded longer ones.",
+            "agreement on enumerated subjects is evidence, not proof; four narrow input classes are masked as known findings (listed in evidence)", "5/C11"),
 }
 
 PENDING = {}
